@@ -360,8 +360,15 @@ func checkF3(c *fw.Ctx) {
 					c.Undecided(rule, construct, "the panic is not guarded by an error test: "+last.String())
 					continue
 				}
-				recv := ssa.Value(fn.Params[0])
-				spec3 := fw.FlowSpec{IsSource: func(x ssa.Value) bool { return x == recv }, Arith: true, Through: func(cl ssa.CallInstruction) []int {
+				// an accessor's own state is its receiver; a helper that only the accessors reach
+				// is handed that state through its parameters (shown at its call sites below)
+				own := map[ssa.Value]bool{ssa.Value(fn.Params[0]): true}
+				if cl, _ := namedPanicClass(fw.FuncName(fn)); cl == "" {
+					for _, p := range fn.Params {
+						own[p] = true
+					}
+				}
+				spec3 := fw.FlowSpec{IsSource: func(x ssa.Value) bool { return own[x] }, Arith: true, Through: func(cl ssa.CallInstruction) []int {
 					var idx []int
 					for i := range cl.Common().Args {
 						idx = append(idx, i)
@@ -372,6 +379,64 @@ func checkF3(c *fw.Ctx) {
 					return idx
 				}}
 				c.CheckDerives(v, nil, spec3, rule, construct, c.P.Pos(fw.InstrPos(pn)), "", "the failure that leads to this panic ("+last.String()+") is not computed from the event's own state: data that did not pass the constructors' validation can trigger it")
+			}
+		}
+	}
+	checkRegionCallSites(c, rule, region)
+}
+
+// checkRegionCallSites: the helpers of the redaction-based accessors are only handed state of
+// the event itself (what their panics may depend on).
+func checkRegionCallSites(c *fw.Ctx, rule string, region []*ssa.Function) {
+	inRegion := map[*ssa.Function]bool{}
+	for _, f := range region {
+		inRegion[f] = true
+	}
+	all := func(cl ssa.CallInstruction) []int {
+		var idx []int
+		for i := range cl.Common().Args {
+			idx = append(idx, i)
+		}
+		if cl.Common().IsInvoke() {
+			idx = append(idx, -1)
+		}
+		return idx
+	}
+	for _, caller := range region {
+		if len(caller.Params) == 0 {
+			continue
+		}
+		own := map[ssa.Value]bool{ssa.Value(caller.Params[0]): true}
+		if cl, _ := namedPanicClass(fw.FuncName(caller)); cl == "" {
+			for _, p := range caller.Params {
+				own[p] = true
+			}
+		}
+		for _, call := range fw.Calls(caller) {
+			callee := call.Common().StaticCallee()
+			if callee == nil || !inRegion[callee] {
+				continue
+			}
+			if cl, _ := namedPanicClass(fw.FuncName(callee)); cl != "" {
+				continue
+			}
+			hasPanic := false
+			for _, b := range callee.Blocks {
+				for _, ins := range b.Instrs {
+					if pn, ok := ins.(*ssa.Panic); ok && !fw.IsSyntheticPanic(pn) {
+						hasPanic = true
+					}
+				}
+			}
+			if !hasPanic {
+				continue
+			}
+			for i, a := range call.Common().Args {
+				if _, isC := a.(*ssa.Const); isC {
+					continue
+				}
+				c.CheckDerives(a, nil, fw.FlowSpec{IsSource: func(x ssa.Value) bool { return own[x] }, Arith: true, Through: all}, rule,
+					fmt.Sprintf("%s hands %s only state of the event (argument %d)", fw.FuncName(caller), fw.FuncName(callee), i), c.P.Pos(call.Pos()), "", "the argument "+fw.Sig(a)+" is not computed from the event's own state, and the helper panics on failures over it")
 			}
 		}
 	}
